@@ -276,7 +276,7 @@ func injectConflict(r *rand.Rand, fed *federation, kind string) bool {
 func runMerge(cfg runCfg, pid string) error {
 	r := rand.New(rand.NewSource(cfg.seed))
 	sum := &summary{Property: pid, Seed: cfg.seed, Features: map[string]int{}, CaseInputs: map[string]interface{}{},
-		Rule: "random federation (1-4 services; boundary types shared by random subsets with single/array lookups or, for a third of the federations, some services in the former Node syntax, plain types, an interface and a union with boundary and plain members, enums with deprecated values, inputs with defaults, a custom scalar declared by several services, nested namespaces, arguments with defaults, descriptions, Mutation) split into service schemas; every one of the n! merge orders through MergeSchemas; tables after UpdateSchema with two forced poll-completion orders; 35% of cases carry ONE injected conflict (17 kinds, taken in turn); non-trivial = >= 2 services and >= 1 shared type, or an injected conflict"}
+		Rule: "random federation (1-4 services; boundary types shared by random subsets with single/array lookups or, for a third of the federations, some services in the former Node syntax, plain types, an interface and a union with boundary and plain members, enums with deprecated values, inputs with defaults, a custom scalar declared by several services, nested namespaces, arguments with defaults, descriptions, Mutation) split into service schemas; every one of the n! merge orders through MergeSchemas; tables after UpdateSchema with two forced poll-completion orders; two cases in five carry ONE injected conflict (17 kinds, taken in turn); non-trivial = >= 2 services and >= 1 shared type, or an injected conflict"}
 	w := &caseWriter{dir: cfg.out, shard: 25, check: "check_merge_case", imports: "From V Require Import Base.Util Gql.Ast Model.Merge Corr.MergeCheck."}
 	distinct, goOnly := 0, 0
 	for ci := 0; ci < cfg.n; ci++ {
@@ -300,7 +300,7 @@ func runMerge(cfg runCfg, pid string) error {
 			}
 		}
 		conflict := ""
-		if r.Intn(100) < 40 && len(fed.Services) >= 2 {
+		if ci%5 < 2 && len(fed.Services) >= 2 { // two cases in five, by position: every kind comes round whatever the draws were
 			// every kind in turn; one that does not apply to this federation leaves the case without a conflict
 			k := conflictKinds[ci%len(conflictKinds)]
 			if injectConflict(r, fed, k) {
